@@ -208,6 +208,9 @@ type Interpreter struct {
 	// incremented, keep it aligned on 64 bits boundary.
 	nindex int64
 
+	// active is the number of evaluations in progress, accessed atomically.
+	active int32
+
 	name string // name of the input source file (or main)
 
 	opt                                         // user settable options
@@ -519,7 +522,7 @@ func (interp *Interpreter) EvalPath(path string) (res reflect.Value, err error) 
 // evalPath evaluates the code located at path in the run id.
 func (interp *Interpreter) evalPath(path string, id uint64) (res reflect.Value, err error) {
 	if !isFile(interp.opt.filesystem, path) {
-		interp.startRun(id)
+		defer interp.startRun(id)()
 		_, err := interp.importSrc(mainID, path, NoTest)
 		return res, err
 	}
@@ -574,7 +577,7 @@ func isFile(filesystem fs.FS, path string) bool {
 // moment id was read, even before or during the compilation, stops the evaluation.
 func (interp *Interpreter) eval(src, name string, inc bool, id uint64) (res reflect.Value, err error) {
 	// Source packages imported during the compilation are initialized in this run.
-	interp.startRun(id)
+	defer interp.startRun(id)()
 	prog, err := interp.compileSrc(src, name, inc)
 	if err != nil {
 		return res, err
